@@ -769,6 +769,29 @@ type Scn struct {
 
 var cache = map[string]*mrun.Loaded{}
 
+// cases evaluated on the same loaded matcher follow each other: one Seq per matcher instance
+var seqs = map[string]*runner.Seq{}
+
+func seqOf(c *Case) *runner.Seq {
+	key := c.Module + c.Config
+	if seqs[key] == nil {
+		seqs[key] = &runner.Seq{}
+	}
+	return seqs[key]
+}
+
+func judgeCase(c *Case) []explore.Failure {
+	got, detail, err := runCase(c)
+	if err != nil {
+		return nil
+	}
+	if (c.Want == "yes" && got != "yes") || (c.Want == "no" && got == "yes") || got == "panic" {
+		sig := fmt.Sprintf("%s:%s-but-matcher-says-%s", c.Proto, map[string]string{"yes": "should-match", "no": "should-not-match"}[c.Want], got)
+		return []explore.Failure{{Sig: sig, Msg: detail}}
+	}
+	return nil
+}
+
 func load(c *Case) (*mrun.Loaded, error) {
 	key := c.Module + c.Config
 	if l, ok := cache[key]; ok {
@@ -846,11 +869,12 @@ func main() {
 				}
 				rep.Outcome(uint64(len(c.Msg))<<16 ^ uint64(len(c.Config))<<4 ^ uint64(len(got)))
 				bad := (c.Want == "yes" && got != "yes") || (c.Want == "no" && got == "yes") || got == "panic"
+				one := &Scn{Gen: sc.Gen, Case: &c}
 				if bad {
-					one := Scn{Gen: sc.Gen, Case: &c}
 					sig := fmt.Sprintf("%s:%s-but-matcher-says-%s", c.Proto, map[string]string{"yes": "should-match", "no": "should-not-match"}[c.Want], got)
-					rep.Fail(&one, sig, fmt.Sprintf("%s matcher %s on message %s (udp=%v remote=%s local=%s time=%s): reference says %s (%s), matcher says %s", c.Module, c.Config, c.Msg, c.UDP, c.Remote, c.Local, c.Time, c.Want, c.Why, detail), nil)
+					seqOf(&c).FailAfter(rep, one, sig, fmt.Sprintf("%s matcher %s on message %s (udp=%v remote=%s local=%s time=%s): reference says %s (%s), matcher says %s", c.Module, c.Config, c.Msg, c.UDP, c.Remote, c.Local, c.Time, c.Want, c.Why, detail), nil)
 				}
+				seqOf(&c).Done(one, nil)
 				return !rep.Expired()
 			})
 		},
@@ -863,16 +887,22 @@ func main() {
 			if sc.Case == nil {
 				return nil
 			}
-			c := sc.Case
-			got, detail, err := runCase(c)
-			if err != nil {
+			cache = map[string]*mrun.Loaded{} // a freshly loaded matcher
+			return judgeCase(sc.Case)
+		},
+		ReplayH: func(hist []runner.HistItem, scAny any, _ []int) []explore.Failure {
+			sc := scAny.(*Scn)
+			if sc.Case == nil {
 				return nil
 			}
-			if (c.Want == "yes" && got != "yes") || (c.Want == "no" && got == "yes") || got == "panic" {
-				sig := fmt.Sprintf("%s:%s-but-matcher-says-%s", c.Proto, map[string]string{"yes": "should-match", "no": "should-not-match"}[c.Want], got)
-				return []explore.Failure{{Sig: sig, Msg: detail}}
+			cache = map[string]*mrun.Loaded{}
+			for _, it := range hist {
+				hs := &Scn{}
+				if json.Unmarshal(it.Scenario, hs) == nil && hs.Case != nil {
+					judgeCase(hs.Case)
+				}
 			}
-			return nil
+			return judgeCase(sc.Case)
 		},
 		Budget: func(tier string) time.Duration { return 10 * time.Minute },
 	})
